@@ -51,7 +51,22 @@ def tasks(tier, seed):
     return out
 
 
-def eos_relations(f, cfg, sol, solver, t):
+def find_contact(jumps, names):
+    """The contact among the located discontinuities: pressure and velocity continuous, density or energy not."""
+    if not isinstance(jumps, list):
+        return None
+    ip, ir, iu, ie = (names.index(n) for n in ("pressure", "density", "velocity", "specific_internal_energy"))
+    cands = []
+    for j in jumps:
+        L, R = np.asarray(j["left"], float), np.asarray(j["right"], float)
+        rj = lambda k: abs(L[k] - R[k]) / max(abs(L[k]), abs(R[k]), 1e-300)
+        cs = max(abs(L[ip] / L[ir]), abs(R[ip] / R[ir])) ** 0.5
+        if rj(ip) < 1e-7 and abs(L[iu] - R[iu]) < 1e-7 * cs and max(rj(ir), rj(ie)) > 1e-4:
+            cands.append(j)
+    return cands[0] if len(cands) == 1 else None
+
+
+def eos_relations(f, cfg, sol, solver, t, jumps=None):
     """List of (clause, lhs, rhs, tol, nontrivial_mask)."""
     names = sol.dtype.names
     g = f["gamma"](cfg)
@@ -128,8 +143,15 @@ def eos_relations(f, cfg, sol, solver, t):
         ml = oracle.mismatch(lhs, (gl - 1.0) * rho * e, floor=1e-13)
         mr = oracle.mismatch(lhs, (gr - 1.0) * rho * e, floor=1e-13)
         use_r = mr < ml
+        contact = find_contact(jumps, [n for n in names[1:]]) if gl != gr else None
+        if contact is not None:
+            # the material (and its gamma) changes at the contact located from the fields, nowhere else
+            x = np.asarray(sol["position"], float)
+            use_r = x > 0.5 * (contact["lo"] + contact["hi"])
         rhs = np.where(use_r, (gr - 1.0) * rho * e, (gl - 1.0) * rho * e)
         rel.append(("eos:p-f(rho)=(gamma_side-1)*rho*e", lhs, rhs, f.get("tol", TOL_A), nt))
+        if gl != gr:
+            rel.append(("eos:contact-identified-for-gamma-side", np.array([0.0 if contact is not None else 1.0]), np.array([0.0]), 2.0, None))
         if gl != gr:
             # the gamma in force may switch from left to right exactly once along x (at the contact)
             only_l = np.where((ml <= TOL_A) & (mr > 1e-6))[0]
@@ -158,7 +180,8 @@ def run_task(task):
         return res
     for t in f["times"](cfg):
         try:
-            pts, njump, ncall = hydro.sample_points(f, cfg, t, s)
+            pts, jumps, ncall = hydro.sample_points(f, cfg, t, s, _want_jumps=True)
+            njump = len(jumps) if isinstance(jumps, list) else int(jumps)
             sol = call(s, pts, t)
         except Exception as ex:  # a raising call is C20's business; here it is counted, not judged
             C["call_exceptions"] = C.get("call_exceptions", 0) + 1
@@ -171,7 +194,11 @@ def run_task(task):
         for n in sol.dtype.names:
             if sol[n].dtype.kind == "f":
                 dg.add(np.asarray(sol[n]))
-        rels = eos_relations(f, cfg, sol, s, t)
+        rels = eos_relations(f, cfg, sol, s, t, jumps)
+        if any(r[0] == "eos:contact-identified-for-gamma-side" and r[1][0] == 0.0 for r in rels):
+            C["contacts_identified_unequal_gamma"] = C.get("contacts_identified_unequal_gamma", 0) + 1
+        elif any(r[0] == "eos:contact-identified-for-gamma-side" for r in rels):
+            C["contacts_not_identified_unequal_gamma"] = C.get("contacts_not_identified_unequal_gamma", 0) + 1
         if "density" in sol.dtype.names and "pressure" in sol.dtype.names:
             vac = (np.asarray(sol["density"], float) == 0) & (np.asarray(sol["pressure"], float) == 0)
             if vac.any():
